@@ -1705,9 +1705,15 @@ func (n *RegexNode) reduceRep() *RegexNode {
 			valid := false
 			if t == NtLoop {
 				switch child.T {
-				case NtOneloop, NtOneloopatomic, NtNotoneloop,
-					NtNotoneloopatomic, NtSetloop, NtSetloopatomic:
+				case NtOneloop, NtNotoneloop, NtSetloop:
 					valid = true
+				case NtOneloopatomic, NtNotoneloopatomic, NtSetloopatomic:
+					// Every iteration of an atomic loop keeps what it took. Two or more
+					// mandatory iterations of a loop that must consume something
+					// ((?>a{1,2}){2}, (?>b+){2,}) can therefore fail where a single merged
+					// loop succeeds; with at most one mandatory iteration, or a child that
+					// may match nothing, the merged loop consumes exactly the same text.
+					valid = min <= 1 || child.M == 0
 				}
 			} else {
 				switch child.T {
